@@ -10,13 +10,19 @@ source expectations and to `text/template` by exact output comparison). -/
 namespace AC.GenX
 open P.Alloc AC.AllocX
 
-/-! ### `pass.CheckDanglingInputs` -/
+/-! ### `pass.Validate` = `CheckDanglingInputs`, then `CheckUniqueOutputs` -/
 def danglingFrom (defined : List Nat) : List Inst → Bool
   | [] => true
   | i :: r => i.op.inputs.all (fun x => defined.contains x) && danglingFrom (i.out :: defined) r
 
-/-- `true` = every input is index 0 or the output of an earlier instruction -/
-def validateB (ir : List Inst) : Bool := danglingFrom [0] ir
+/-- `pass.CheckUniqueOutputs`: no instruction outputs index 0 or an index already output -/
+def uniqueFrom (defined : List Nat) : List Inst → Bool
+  | [] => true
+  | i :: r => !defined.contains i.out && uniqueFrom (i.out :: defined) r
+
+/-- `pass.Validate`: `true` = every input is index 0 or the output of an earlier instruction, and
+    every output index is new (not 0, not the output of an earlier instruction) -/
+def validateB (ir : List Inst) : Bool := danglingFrom [0] ir && uniqueFrom [0] ir
 
 /-! ### `pass.Compile` / `pass.Eval` -/
 
@@ -87,7 +93,9 @@ structure Data where
 def applyPass (cfg : Cfg String) (ir : List Inst) (occ : List (Nat × String)) (preOut : List String)
     (d : Data) (pass : String) : Except String Data :=
   if pass = "pass.Validate" then
-    if validateB ir then .ok d else .error "no output instruction for input index"
+    if !danglingFrom [0] ir then .error "no output instruction for input index"
+    else if !uniqueFrom [0] ir then .error "multiple definitions of index"
+    else .ok d
   else if pass = "cfg.Allocator" then
     match allocateN cfg ir occ with
     | .ok (prog, temps) => .ok { d with prog := fixOutputs ir preOut prog, temps := temps }
